@@ -10,6 +10,9 @@ CONT, SKIPC, SKIPS, END = 0, -1, -2, -3
 POS = AV(1, None)
 OTHERNEG = AV(None, -4)
 WALKERS = ("cif_walk", "walk_container", "walk_loops", "walk_loop", "walk_packet", "walk_item")
+# walk_loops iterates over a container's loops on behalf of walk_container and hands a loop's SKIP_SIBLINGS up to it,
+# where it is consumed (`case CIF_TRAVERSE_SKIP_SIBLINGS: return CIF_TRAVERSE_CONTINUE`)
+SIBLING_HELPERS = ("walk_loops",)
 API = {"cif_get_all_blocks": "plain", "cif_container_get_all_frames": "plain", "cif_container_get_all_loops": "plain",
        "cif_loop_get_packets": "plain", "cif_pktitr_next_packet": "next", "cif_pktitr_close": "plain"}
 # expected callback / child sequence when every handler continues (consecutive repeats collapsed)
@@ -39,7 +42,7 @@ class WalkInterp(Interp):
         self.child_sites = {}
 
     def initial_ts(self):
-        return (None, None, False, frozenset(), (), frozenset(), None)
+        return (None, None, False, frozenset(), (), frozenset(), None, None)
 
     def _classes(self, kind):
         if self.mode == "all-continue":
@@ -55,7 +58,7 @@ class WalkInterp(Interp):
     def call(self, st, n, argvals):
         c = n.get("callee")
         tgt = indirect_target(n)
-        stop, origin, skipcur, sibl, seq, holders, mark = st.ts
+        stop, origin, skipcur, sibl, seq, holders, mark, last = st.ts
         if tgt and tgt.startswith("handle_"):
             name, kind = tgt, "handler"
         elif c in WALKERS:
@@ -86,7 +89,8 @@ class WalkInterp(Interp):
                 skipcur2 = True
             elif v.is_const() and v.value() == SKIPS and kind == "walk":
                 sibl2 = sibl | {name}
-            outs.append((st.with_ts((stop2, origin2, skipcur2, sibl2, seq2, holders2, mark2)), v))
+            last2 = (kind, name, v.value() if v.is_const() else None)
+            outs.append((st.with_ts((stop2, origin2, skipcur2, sibl2, seq2, holders2, mark2, last2)), v))
         return outs
 
     def on_edge(self, st, blk, cond, truth):
@@ -98,7 +102,7 @@ class WalkInterp(Interp):
         return st
 
     def assign(self, st, node, lhs, p, av, rhs):
-        stop, origin, skipcur, sibl, seq, holders, mark = st.ts
+        stop, origin, skipcur, sibl, seq, holders, mark, last = st.ts
         if stop != "POS" or p is None:
             return st
         r = strip(rhs) if rhs is not None else None
@@ -110,9 +114,9 @@ class WalkInterp(Interp):
             elif path(r) in holders:
                 from_v = True
         if from_v and p not in holders:
-            return st.with_ts((stop, origin, skipcur, sibl, seq, holders | {p}, mark))
+            return st.with_ts((stop, origin, skipcur, sibl, seq, holders | {p}, mark, last))
         if not from_v and p in holders:
-            return st.with_ts((stop, origin, skipcur, sibl, seq, holders - {p}, mark))
+            return st.with_ts((stop, origin, skipcur, sibl, seq, holders - {p}, mark, last))
         return st
 
 
@@ -176,9 +180,16 @@ def run(prog, chk):
                     continue
                 if any(av.contains(d) for d in (SKIPC, SKIPS, END)):
                     bad_ret.setdefault(("directive-leak", line, str(av)), st)
+            elif w not in SIBLING_HELPERS and st.ts[7] is not None and st.ts[7][0] == "walk" and st.ts[7][2] == SKIPS \
+                    and av is not None and av.is_const() and av.value() == SKIPS:
+                # a child's SKIP_SIBLINGS concerns the child's siblings, which this function iterates over: it is consumed here
+                bad_ret.setdefault(("SIBL", line, st.ts[7][1]), st)
         for (what, line, avs), st in sorted(bad_ret.items(), key=str):
             if what == "END":
                 msg = "after CIF_TRAVERSE_END the function returns %s (expected %s)" % (avs, "CIF_OK" if w == "cif_walk" else "CIF_TRAVERSE_END")
+            elif what == "SIBL":
+                msg = ("after the child walk %s answered SKIP_SIBLINGS - which only concerns that child's own siblings, iterated over "
+                       "here - the function returns SKIP_SIBLINGS itself, so its caller also skips this element's siblings" % avs)
             elif what == "POS":
                 msg = "a positive handler/child result is not returned unchanged (returns %s)" % avs
             else:
